@@ -318,8 +318,8 @@ fire("c18-burn-event-default-share", "C18", ["C18.amount"],
 fire("c18-send-event-other-amount", "C18", ["C18.amount"],
      (VEST, "			Amount:          amount.String() + k.Denom(ctx),", "			Amount:          available.String() + k.Denom(ctx),"))
 fire("c18-send-event-on-failure", "C18", ["C18.guard"],
-     (VEST, "	if err == nil {\n		k.SetAccountVestingPools(ctx, accVestingPools)\n		k.AppendVestingAccountTrace(ctx, types.VestingAccountTrace{\n			Address:            toAddr,\n			Genesis:            false,\n			FromGenesisPool:    vestingPool.GenesisPool,\n			FromGenesisAccount: false,\n		})\n",
-      "	if err == nil {\n		k.SetAccountVestingPools(ctx, accVestingPools)\n		k.AppendVestingAccountTrace(ctx, types.VestingAccountTrace{\n			Address:            toAddr,\n			Genesis:            false,\n			FromGenesisPool:    vestingPool.GenesisPool,\n			FromGenesisAccount: false,\n		})\n	}\n	{\n"))
+     (VEST, "	if err == nil {\n		k.SetAccountVestingPools(ctx, accVestingPools)\n		k.AppendVestingAccountTrace(ctx, types.VestingAccountTrace{\n			Address:            toAccAddress.String(),\n			Genesis:            false,\n			FromGenesisPool:    vestingPool.GenesisPool,\n			FromGenesisAccount: false,\n		})\n",
+      "	if err == nil {\n		k.SetAccountVestingPools(ctx, accVestingPools)\n		k.AppendVestingAccountTrace(ctx, types.VestingAccountTrace{\n			Address:            toAccAddress.String(),\n			Genesis:            false,\n			FromGenesisPool:    vestingPool.GenesisPool,\n			FromGenesisAccount: false,\n		})\n	}\n	{\n"))
 fire("c18-pool-event-other-amount", "C18", ["C18.amount"],
      ("x/cfevesting/keeper/msg_server_create_vesting_pool.go", "		Amount:      msg.Amount.String() + denom,", "		Amount:      msg.Amount.AddRaw(1).String() + denom,"))
 silent("c18-mint-event-local", "C18",
@@ -330,7 +330,7 @@ SUMM = "x/cfevesting/keeper/grpc_query_vestings_summary.go"
 fire("c17-pool-flag-false", "C17", ["C17.pool"],
      (VEST, "			FromGenesisPool:    vestingPool.GenesisPool,", "			FromGenesisPool:    false,"))
 fire("c17-pool-trace-owner", "C17", ["C17.pool"],
-     (VEST, "			Address:            toAddr,\n			Genesis:            false,\n			FromGenesisPool:    vestingPool.GenesisPool,", "			Address:            owner,\n			Genesis:            false,\n			FromGenesisPool:    vestingPool.GenesisPool,"))
+     (VEST, "			Address:            toAccAddress.String(),\n			Genesis:            false,\n			FromGenesisPool:    vestingPool.GenesisPool,", "			Address:            owner,\n			Genesis:            false,\n			FromGenesisPool:    vestingPool.GenesisPool,"))
 fire("c17-split-drop-genesis", "C17", ["C17.split"],
      (SPLIT, "			FromGenesisAccount: vAcc.Genesis || vAcc.FromGenesisAccount,", "			FromGenesisAccount: vAcc.FromGenesisAccount,"))
 fire("c17-split-and", "C17", ["C17.split"],
@@ -794,3 +794,35 @@ fire("c20-pubkey-address-of-decoded-key", "C20", ["C20.inventory"],
 # ---------------- listing getters ----------------
 fire("c12-getall-skips-empty-owner", "C12", ["C12.getall"],
      ("x/cfevesting/keeper/account_vesting_pools.go", "		k.cdc.MustUnmarshal(iterator.Value(), &val)\n", "		k.cdc.MustUnmarshal(iterator.Value(), &val)\n		if len(val.VestingPools) == 0 {\n			continue\n		}\n"))
+
+# ---------------- round-3 batch A derived ----------------
+fire("c17-trace-keyed-by-message-string", "C17", ["C17.key", "C17.pool"],
+     (VEST, "			Address:            toAccAddress.String(),", "			Address:            toAddr,"))
+fire("c05-create-pool-looks-up-raw-owner", "C05", ["C05.rmwkey"],
+     (VEST, "	return k.addVestingPool(ctx, name, accAddress, amount, vestingType, ctx.BlockTime(),", "	return k.addVestingPool(ctx, name, addr, accAddress, amount, vestingType, ctx.BlockTime(),"),
+     (VEST, "	vestingPoolName string,\n	accAddress sdk.AccAddress,", "	vestingPoolName string,\n	owner string,\n	accAddress sdk.AccAddress,"),
+     (VEST, "k.GetAccountVestingPools(ctx, accAddress.String())", "k.GetAccountVestingPools(ctx, owner)"))
+silent("c05-create-pool-owner-named-once", "C05",
+     (VEST, "	accVestingPools, vestingPoolsFound := k.GetAccountVestingPools(ctx, accAddress.String())", "	ownerKey := accAddress.String()\n	accVestingPools, vestingPoolsFound := k.GetAccountVestingPools(ctx, ownerKey)"),
+     (VEST, "		accVestingPools.Owner = accAddress.String()", "		accVestingPools.Owner = ownerKey"))
+fire("c01-burn-dispatch-on-account-nil", "C01", ["C01.sameshape"],
+     (DISTR, "		if types.InternalAccount != state.Account.GetType() && checkIfAnyCoinIsGTE1(state.Remains) {", "		if state.Account != nil && types.InternalAccount != state.Account.Type && checkIfAnyCoinIsGTE1(state.Remains) {"))
+
+silent("c07-guard-as-locked-isallgte", "C07",
+     (UNLOCK, "	if !amountToUnlock.IsAllLTE(lockedCoins) {", "	if !lockedCoins.IsAllGTE(amountToUnlock) {"))
+fire("c07-guard-isanygt-skips-zero-locked", "C07", ["C07.guard"],
+     (UNLOCK, "	if !amountToUnlock.IsAllLTE(lockedCoins) {", "	if amountToUnlock.IsAnyGT(lockedCoins) {"))
+fire("c09-sender-converted-from-delayed", ["C09", "C07"], ["C09.self", "C07.guard"],
+     (UNLOCK, "	vestingAcc, ok := ownerAccount.(*vestingtypes.ContinuousVestingAccount)\n	if !ok {", "	vestingAcc, ok := ownerAccount.(*vestingtypes.ContinuousVestingAccount)\n	if delayedAcc, isDelayed := ownerAccount.(*vestingtypes.DelayedVestingAccount); isDelayed {\n		vestingAcc, ok = vestingtypes.NewContinuousVestingAccountRaw(delayedAcc.BaseVestingAccount, delayedAcc.EndTime), true\n	}\n	if !ok {"))
+
+# ---------------- round-3 batch B derived ----------------
+fire("c08-pool-selected-case-insensitively", "C08", ["C08.pool"],
+     (VEST, "		if vest.Name == vestingPoolName {\n			vestingPool = vest\n		}", "		if strings.EqualFold(vest.Name, vestingPoolName) {\n			vestingPool = vest\n		}"),
+     (VEST, "import (\n", "import (\n	\"strings\"\n"))
+silent("c08-pool-selected-operands-swapped", "C08",
+     (VEST, "		if vest.Name == vestingPoolName {\n			vestingPool = vest\n		}", "		if vestingPoolName != vest.Name {\n			continue\n		}\n		vestingPool = vest"))
+fire("c10-inflation-period-in-whole-minutes", ["C10", "C19"], ["C10.inventory", "C19.units"],
+     (MINTYPES, "	mintedYearly := sdk.NewDecFromInt(m.Amount).MulInt64(int64(year)).QuoInt64(int64(periodDuration))", "	mintedYearly := sdk.NewDecFromInt(m.Amount).MulInt64(int64(year / time.Minute)).QuoInt64(int64(periodDuration / time.Minute))"))
+
+fire("c06-withdraw-looks-up-raw-owner", ["C06", "C05"], ["C06.key", "C05.key"],
+     (VEST, "	accVestingPools, vestingPoolsFound := k.GetAccountVestingPools(ctx, ownerAddress.String())", "	accVestingPools, vestingPoolsFound := k.GetAccountVestingPools(ctx, owner)"))
